@@ -370,9 +370,9 @@ def t_cli(shard, nshards, seed, ev, known, n=10):
 def plan(tier):
     q = tier == "quick"
     return [
-        Task("int", t_int, shards=4 if q else 16, n=1000 if q else 30000),
-        Task("file", t_file, shards=4 if q else 16, n=250 if q else 4000),
+        Task("int", t_int, shards=4 if q else 16, n=1000 if q else 15000),
+        Task("file", t_file, shards=4 if q else 16, n=250 if q else 2000),
         Task("cli", t_cli, shards=2 if q else 16, n=6 if q else 40),
         Task("bulk", t_bulk, shards=3 if q else 8, n=1 if q else 4, size=24000 if q else 60000),
-        Task("sameobj", t_sameobj, shards=3 if q else 16, n=250 if q else 4000),
+        Task("sameobj", t_sameobj, shards=3 if q else 16, n=250 if q else 2000),
     ]
